@@ -7,7 +7,7 @@
     [min burst window] bytes); afterwards the peer closes ([mode] 0), stalls (1) or fails (2).
     [grow] is the reallocation policy of [BytesMut::reserve], only assumed to keep its promise
     ([grow_ok]: the new capacity is at least [len + additional]). *)
-From KV Require Import Bytes RustInt Http1Read Http1ReadOld Http1ReadProofs Http1ReadParseProofs Http1ReadLocalProofs Http1ReadLfProofs Http1ReadBodyProofs.
+From KV Require Import Bytes RustInt Http1Read Http1ReadOld Http1ReadProofs Http1ReadParseProofs Http1ReadLocalProofs Http1ReadLfProofs Http1ReadBodyProofs Http1ReadTermProofs.
 Open Scope N_scope.
 
 (** parse (print g) = g.  [g] ranges over the request grammar [greq_ok]: ANY method token of at most
@@ -15,8 +15,11 @@ Open Scope N_scope.
     1.1, header lines [name ":" SP^k value CRLF] (any k, including 0) with token names that are
     unique up to case and values that are field values of RFC 9110 (visible bytes, obs-text, SP and
     HTAB inside, neither starting nor ending with SP/HTAB).  [expect] is the
-    specification: method, path, query, version, header list, authority (the target is judged by
-    the [http] crate's [Uri] parser, transcribed as [parse_uri]) and the first
+    specification: method, path, query, version, header list, authority (the Host value — header or
+    default host's name — becomes the authority of the URI if it is one ([authority_ok]); the URI,
+    i.e. scheme "://" host target, or the origin-form target alone without a usable Host value, is
+    judged by the [http] crate's [Uri] parser, transcribed as [parse_uri] / [parse_origin_form]:
+    [request_uri]) and the first
     [min content-length limit] bytes of whatever follows the blank line.  For every schedule that
     delivers the head and the body, every growth function, every end mode, every trailing bytes
     (the next request): the reader returns exactly that. *)
@@ -30,8 +33,8 @@ Proof. exact parse_print_lemma. Qed.
 
 (** The parser alone: the printed head followed by anything parses to the printed request, and
     the bytes after the blank line are exactly what followed (no byte lost or duplicated). *)
-Theorem parse_print_head : forall https dh (g : greq) extra host auth path query,
-  greq_ok g = true -> g_host dh g = Some host -> parse_uri https host (g_target g) = Some (auth, path, query) ->
+Theorem parse_print_head : forall https dh (g : greq) extra auth path query,
+  greq_ok g = true -> request_uri https (g_host dh g) (g_target g) = Some (auth, path, query) ->
   parse_request https dh (print_head g ++ extra) =
   Ok (mk_request (g_method g) path query (if g_v11 g then 11 else 10) (g_hmap g) auth extra).
 Proof. exact parse_request_print. Qed.
@@ -47,8 +50,8 @@ Theorem parse_print_lf : forall grow mode https dh (max_len : nat) limit (l0 : b
   exists sv, serve grow mode https dh max_len limit (print_head_e l0 fl lb g ++ rest) sched = Ok sv /\ observed sv = Some e.
 Proof. exact parse_print_lf_lemma. Qed.
 
-Theorem parse_print_head_lf : forall https dh (l0 : bool) (fl : list bool) (lb : bool) (g : greq) extra host auth path query,
-  greq_ok g = true -> g_host dh g = Some host -> parse_uri https host (g_target g) = Some (auth, path, query) ->
+Theorem parse_print_head_lf : forall https dh (l0 : bool) (fl : list bool) (lb : bool) (g : greq) extra auth path query,
+  greq_ok g = true -> request_uri https (g_host dh g) (g_target g) = Some (auth, path, query) ->
   parse_request https dh (print_head_e l0 fl lb g ++ extra) =
   Ok (mk_request (g_method g) path query (if g_v11 g then 11 else 10) (g_hmap g) auth extra).
 Proof. exact parse_request_print_e. Qed.
@@ -67,9 +70,9 @@ Theorem parse_print_ows : forall grow mode https dh (max_len : nat) limit (l0 : 
   exists sv, serve grow mode https dh max_len limit (print_head_d l0 ds lb g ++ rest) sched = Ok sv /\ observed sv = Some e.
 Proof. exact parse_print_ows_lemma. Qed.
 
-Theorem parse_print_head_ows : forall https dh (l0 : bool) (ds : list deco) (lb : bool) (g : greq) extra host auth path query,
+Theorem parse_print_head_ows : forall https dh (l0 : bool) (ds : list deco) (lb : bool) (g : greq) extra auth path query,
   greq_ok g = true -> decos_ok ds (g_headers g) = true ->
-  g_host dh g = Some host -> parse_uri https host (g_target g) = Some (auth, path, query) ->
+  request_uri https (g_host dh g) (g_target g) = Some (auth, path, query) ->
   parse_request https dh (print_head_d l0 ds lb g ++ extra) =
   Ok (mk_request (g_method g) path query (if g_v11 g then 11 else 10) (g_hmap g) auth extra).
 Proof. exact parse_request_print_d. Qed.
@@ -143,6 +146,40 @@ Theorem stalled_head : forall grow mode https dh (max_len : nat) limit stream (s
   exists e, serve grow mode https dh max_len limit stream sched = Err e /\
             (e = E_TOO_LONG \/ e = E_UNEXPECTED_END \/ e = E_SYNTAX).
 Proof. exact stalled_lemma. Qed.
+
+(** "... rather than a hang": the loops that read from the connection end by themselves.  In the model a loop that has
+    not ended when its fuel is used up returns [Err E_FUEL]; the fuel is the number of bytes the loop can still get, plus
+    one, and one round of a loop is one [read] of the code.  For EVERY schedule -- any number of 0-byte reads anywhere in
+    it --, every end mode (a peer at end of file answers every further read with 0 bytes), every growth function:
+    the head reader ends with the head or with one of its three errors ... *)
+Theorem head_read_ends : forall grow mode (max_len : nat) stream (sched : list nat),
+  match read_headers grow (S (length stream)) mode max_len [] 512 (mk_reader stream sched) with
+  | Ok _ => True
+  | Err e => e = E_TOO_LONG \/ e = E_UNEXPECTED_END \/ e = E_SYNTAX
+  | Panic => False
+  end.
+Proof. exact head_read_ends_lemma. Qed.
+
+(** ... [read_to_bytes] ends with bytes, as [TimedOut] or as an I/O error ... *)
+Theorem body_read_ends : forall grow mode early (cl limit : N) stream (sched : list nat),
+  match read_to_bytes grow mode early cl limit (mk_reader stream sched) with
+  | Ok _ => True
+  | Err e => e = E_TIMEDOUT \/ e = E_IO
+  | Panic => False
+  end.
+Proof. exact body_read_ends_lemma. Qed.
+
+(** ... and so does every call of every sequence of [read] / [read_to_bytes] / [drain] on a [Http1Body]. *)
+Theorem body_calls_end : forall grow mode early (cl : nat) stream (sched : list nat) (ops : list hop),
+  Forall (fun o : outcome bytes => match o with Ok _ => True | Err e => e = E_TIMEDOUT \/ e = E_IO | Panic => False end)
+         (fst (hb_run grow mode (hb_new early cl) (mk_reader stream sched) ops)).
+Proof. exact body_calls_end_lemma. Qed.
+
+(** The body outcome of a request that was served is never "out of fuel". *)
+Theorem served_body_ends : forall grow mode https dh (max_len : nat) limit stream (sched : list nat) sv,
+  serve grow mode https dh max_len limit stream sched = Ok sv ->
+  match sv_body sv with Ok _ => True | Err e => e = E_TIMEDOUT \/ e = E_IO | Panic => False end.
+Proof. exact serve_body_ends. Qed.
 
 (** [Http1Body::read_to_bytes]: when the [min content_length limit] bytes are delivered, exactly
     they are returned, for every schedule, and the connection keeps everything behind them
@@ -266,6 +303,20 @@ Example stalled_ex :
   serve vec_grow 1 false None 64%nat 100 (B "GET / HTTP/1.1" ++ [13; 10; 13; 10]) [5; 12]%nat = Err E_UNEXPECTED_END.
 Proof. vm_compute. split; reflexivity. Qed.
 
+(** a peer that answers with 0 bytes in the middle of the head / of the body: an error resp. what arrived, at once *)
+Example head_read_ends_ex :
+  read_headers vec_grow 19 0 64%nat [] 512 (mk_reader (B "GET / HTTP/1.1" ++ [13; 10; 13; 10]) [5; 0; 0; 20]%nat) = Err E_UNEXPECTED_END.
+Proof. vm_compute. reflexivity. Qed.
+
+Example body_read_ends_ex :
+  exists r', read_to_bytes vec_grow 0 (B "ab") 10 100 (mk_reader (B "cdefghijNEXT") [3; 0; 0; 20]%nat) = Ok (B "abcde", r').
+Proof. eexists. vm_compute. reflexivity. Qed.
+
+Example body_calls_end_ex :
+  fst (hb_run vec_grow 0 (hb_new (B "ab") 10) (mk_reader (B "cde") [3]%nat) [HRead 4; HRead 4; HRead 4; HDrain]) =
+  [Ok (B "ab"); Ok (B "cde"); Ok []; Err E_IO].
+Proof. vm_compute. reflexivity. Qed.
+
 Example body_exact_ex :
   sched_pos [3; 2; 50]%nat /\
   match read_to_bytes vec_grow 0 (B "he") 5 1000 (mk_reader (B "lloGET /next") [3; 2; 50]%nat) with
@@ -281,12 +332,23 @@ Example parse_print_ex :
   greq_ok ex_req = true /\ sched_pos [1; 30; 7; 100]%nat /\
   expect false None 65536 ex_req (B "helloGET /next") =
     Some (mk_expected (B "POST") (B "/p") (Some (B "x=1")) 11
-            [(B "host", B "ex.org"); (B "content-length", B "5"); (B "x-a", B "b c")] (B "ex.org") (B "hello")) /\
+            [(B "host", B "ex.org"); (B "content-length", B "5"); (B "x-a", B "b c")] (Some (B "ex.org")) (B "hello")) /\
   option_map observed
     (match serve vec_grow 0 false None (N.to_nat 16384) 65536 (print_head ex_req ++ B "helloGET /next") [1; 30; 7; 100]%nat
      with Ok sv => Some sv | _ => None end) =
   Some (expect false None 65536 ex_req (B "helloGET /next")).
 Proof. split; [vm_compute; reflexivity|]. split; [repeat constructor|]. split; vm_compute; reflexivity. Qed.
+
+(** a request without Host header and one whose Host value is no authority: the origin-form target is the URI *)
+Example no_host_ex :
+  expect false None 65536 (mk_greq (B "GET") (B "/p?x=1") false []) [] =
+    Some (mk_expected (B "GET") (B "/p") (Some (B "x=1")) 10 [] None []) /\
+  expect false (Some (B "dflt.test")) 65536 (mk_greq (B "GET") (B "/p") true [mk_hline (B "Host") 1 (B "a b")]) [] =
+    Some (mk_expected (B "GET") (B "/p") None 11 [(B "host", B "a b")] None []) /\
+  expect false (Some (B "dflt.test")) 65536 (mk_greq (B "GET") (B "/p") true [mk_hline (B "Host") 1 (B "a.org/dir")]) [] =
+    Some (mk_expected (B "GET") (B "/p") None 11 [(B "host", B "a.org/dir")] None []) /\
+  expect false None 65536 (mk_greq (B "GET") (B "p") true []) [] = None.
+Proof. vm_compute. repeat split; reflexivity. Qed.
 
 (** a malformed stream (bare LF line ends, a header line without colon) cut in two different ways *)
 Example segmentation_blind_ex :
@@ -339,7 +401,7 @@ Example parse_print_ows_ex :
   Some (expect false None 65536 ex_ows (B "helloGET /next")) /\
   expect false None 65536 ex_ows (B "helloGET /next") =
     Some (mk_expected (B "PURGE") (B "/p") None 11
-            [(B "host", B "ex.org"); (B "content-length", B "5"); (B "x-e", [])] (B "ex.org") (B "hello")).
+            [(B "host", B "ex.org"); (B "content-length", B "5"); (B "x-e", [])] (Some (B "ex.org")) (B "hello")).
 Proof. cbv zeta. repeat split; vm_compute; reflexivity. Qed.
 
 (** the body through [AsyncRead]: windows 2, 100, 100 over bursts 1, 1, 50 *)
